@@ -373,8 +373,12 @@ Definition g_run (s : gstate) (ops : list op) : gstate := fold_left (fun s o => 
 Definition d_run (s : dstate) (ops : list op) : dstate := fold_left (fun s o => fst (d_step s o)) ops s.
 Definition b_run (s : bstate) (ops : list op) : bstate := fold_left (fun s o => fst (b_step s o)) ops s.
 
-Definition g_outcomes (s : gstate) (ops : list op) : list outcome :=
-  snd (fold_left (fun '(s, acc) o => let '(s', r) := g_step s o in (s', acc ++ [r])) ops (s, [])).
+(* outcomes of the successive calls of a run, for any of the machines *)
+Fixpoint outcomes {S} (step : S -> op -> S * outcome) (s : S) (ops : list op) : list outcome :=
+  match ops with
+  | [] => []
+  | o :: r => snd (step s o) :: outcomes step (fst (step s o)) r
+  end.
 
 (* the driver interface: any of the three kinds, outcome and snapshot after every step *)
 Inductive anystate := SG (s : gstate) | SD (s : dstate) | SB (s : bstate).
